@@ -170,6 +170,45 @@ def unwrap_some(rng, case, atol, matched=None):
     return n_out
 
 
+EMPTY_KINDS = ["plain", "plain", "deleted-search", "tables", "tables+coeffs"]
+
+
+def empty_by_deletion(rj_src):
+    """the real EMPTY Atoms object obtained from a non-empty one by deleting every atom with `del`: zero atoms, but the
+    atom type tables (and any coefficient tables) are still there.  (core.atoms_from_json cannot build such an object
+    from its JSON: it drops the tables of zero-atom objects.)"""
+    r = core.atoms_from_json(rj_src)
+    with core.quiet():
+        del r[list(range(len(r)))]
+    return r
+
+
+def empty_replacement(rng, pj, kind=None):
+    """an EMPTY replacement of one of several kinds. Returns (rj, rj_src, kind): rj = canonical JSON of the empty
+    object (what the oracle and the model see), rj_src = None for a plain `Atoms()` or the non-empty JSON from which the
+    runner must rebuild the real object with `empty_by_deletion` (the marker that makes a replay reconstruct it).
+      plain          : Atoms() - no atoms, no tables
+      deleted-search : a copy of the search pattern with all atoms deleted (its type tables remain)
+      tables         : zero atoms + element / label / mass tables of other elements
+      tables+coeffs  : the same + pair coefficients and a bond coefficient table"""
+    import copy
+    kind = kind or rng.choice(EMPTY_KINDS)
+    if kind == "plain":
+        return pattern_json([], []), None, kind
+    if kind == "deleted-search":
+        src = copy.deepcopy(pj)
+    else:
+        els = rng.sample(NEW_ELEMENTS, rng.randint(1, 3))
+        src = pattern_json(els, [[Fraction(3 * i, 2), 0, 0] for i in range(len(els))], label_suffix=rng.choice([None, "_e"]))
+        if kind == "tables+coeffs":
+            src["types"]["pair"] = ["%s 0.1 3.%d" % ("lj/cut", i) for i in range(len(els))]
+            src["types"]["bond"] = ["100.0 1.5"]
+            if len(els) >= 2:
+                src["terms"]["bond"] = [{"a": [0, 1], "ty": 0, "x": []}]
+    rj = core.canon_atoms(empty_by_deletion(src))
+    return rj, src, kind
+
+
 SPARE_ELEMENTS = ["He", "Li", "Be", "Na", "Mg", "Al"]
 ATOLS = [0.05, 0.05, 0.05, 0.05, 0.02, 0.1, 0.2]
 
@@ -201,6 +240,10 @@ def random_case(rng, mode=None, shared=None, f=None, replace_all=None, pname=Non
     pj = pattern_json(pe, pp)
     rj = pattern_json(relems, rpos, charges=[1000 + i for i in range(len(relems))],
                       groups=[rng.randint(4, 6) for _ in relems], label_suffix=rng.choice([None, "_r"]))
+    rj_src = None
+    if not relems:
+        rj, rj_src, ekind = empty_replacement(rng, pj)
+        rinfo = dict(rinfo, empty_kind=ekind)
     if f is None:
         f = rng.choice(F_WEIGHTED) if rng.random() < 0.7 else round(rng.random(), rng.choice([2, 3, 6]))
     if replace_all is None:
@@ -216,7 +259,7 @@ def random_case(rng, mode=None, shared=None, f=None, replace_all=None, pname=Non
     info = dict(case["info"], boundary=boundary, outside=n_out, **rinfo)
     return {"op": "replace-c04", "sj": sj, "pj": pj, "rj": rj, "atol": atol, "f": f, "replace_all": bool(replace_all),
             "ignore": False, "seed": rng.randrange(1 << 30), "hints": [None if h is None else int(h) for h in hints],
-            "return_num": bool(return_num), "info": info}
+            "return_num": bool(return_num), "rj_src": rj_src, "info": info}
 
 
 def second_step(rng, inp1, res1, mode=None):
